@@ -1,6 +1,7 @@
 package sym
 
 import (
+	"time"
 	"sort"
 
 	"golang.org/x/tools/go/ssa"
@@ -319,6 +320,11 @@ func (ex *Exec) exploreAll(s0 *State) {
 			}
 			if len(ex.Finished) > ex.MaxPaths {
 				s.Status, s.Msg = Errored, "UNWIND path limit exceeded"
+				ex.finish(s)
+				break
+			}
+			if !ex.Deadline.IsZero() && s.Steps&255 == 0 && time.Now().After(ex.Deadline) {
+				s.Status, s.Msg = Errored, "DEADLINE run-wide time limit reached before this path finished"
 				ex.finish(s)
 				break
 			}
